@@ -42,6 +42,14 @@ func (c12) DiedIsViolation() bool      { return true }
 func (c12) MinNontrivial(t string) int { return 300 }
 
 // injectUnusable mutates g and returns a description; kind chosen by r.
+// ghostName: the rule-less %type'd nonterminal sorts behind or in front of the other nonterminals
+func ghostName(k int) string {
+	if k%2 == 0 {
+		return "AaGhost"
+	}
+	return "TypedGhost"
+}
+
 func injectC12(r *rand.Rand, g *spec.Grammar) string {
 	addNT := func(name string) int {
 		g.NTs = append(g.NTs, spec.NT{Name: name, Tag: "s"})
@@ -130,18 +138,18 @@ func injectC12(r *rand.Rand, g *spec.Grammar) string {
 		insert(anyRule(), spec.Sym{I: a})
 		return "chain with unit self loop repaired by a terminal rule"
 	case 12: // %type'd nonterminal without rules, used somewhere (the rule keeps its other alternatives)
-		n := addNT("TypedGhost")
+		n := addNT(ghostName(len(g.Rules)))
 		ru := anyRule()
 		g.Rules = append(g.Rules, spec.Rule{Lhs: ru.Lhs, Rhs: append(append([]spec.Sym{}, ru.Rhs...), spec.Sym{I: n}), Prec: -1})
 		return "%type'd nonterminal without rule used in an extra alternative"
 	case 13: // the same, but only in rules that are unreachable from the start symbol
-		n := addNT("TypedGhost")
+		n := addNT(ghostName(len(g.Rules)))
 		u := addNT("Unreach")
 		g.Rules = append(g.Rules, spec.Rule{Lhs: u, Rhs: []spec.Sym{{T: true, I: 0}}, Prec: -1},
 			spec.Rule{Lhs: u, Rhs: []spec.Sym{{I: u}, {I: n}}, Prec: -1})
 		return "%type'd nonterminal without rule used only in unreachable rules"
 	case 14: // %type'd nonterminal without rules, never used
-		addNT("TypedGhost")
+		addNT(ghostName(len(g.Rules)))
 		return "%type'd nonterminal without rule, never used"
 	case 10: // start symbol without rules
 		n := addNT("Nostart")
@@ -214,6 +222,13 @@ func (p c12) Run(seed int64, tier string, idx int) Outcome {
 	default:
 		g = gen.Rand(r, stdCfg)
 	}
+	if idx%3 == 0 {
+		// names for the end marker (declared with -1): tokens that get no symbol of their own
+		g.Tokens = append(g.Tokens, spec.Token{Name: "EndA", Num: -1, Decl: "token"})
+		if idx%6 == 0 {
+			g.Tokens = append(g.Tokens, spec.Token{Name: "EndB", Num: -1, Decl: "token"})
+		}
+	}
 	return p.runOn(g, what, injected, idx)
 }
 
@@ -225,7 +240,7 @@ func (c12) runOn(g *spec.Grammar, what string, injected bool, idx int) Outcome {
 		has[ru.Lhs] = true
 	}
 	for i := range g.NTs {
-		if !has[i] && g.NTs[i].Name != "TypedGhost" {
+		if !has[i] && !strings.HasSuffix(g.NTs[i].Name, "Ghost") {
 			g.NTs[i].Tag = ""
 		}
 	}
